@@ -499,39 +499,107 @@ Proof. split; vm_compute; reflexivity. Qed.
 
 (* ---------------------------------------- concurrent callers: own results *)
 
-(* Composition with the tag layers.  What the sibling models provide is taken
-   as hypotheses of this section (to be instantiated by the lead):
-     - C05 (client transport): a reply frame is handed to the call whose
-       request carried the frame's tag, and tags of outstanding calls differ;
-     - C06 (server loop): every reply frame the server sends carries the tag of
-       a request frame it received and the message its own handler invocation
-       produced for that request;
-     - C01/C03 (codec, framing): frames arrive as sent.
-   Conclusion: the reply delivered to a call is the handler's answer to THAT
-   call's request, so by request_identity/reply_identity each caller gets the
-   result the session returned for its own arguments. *)
-Section OwnResult.
-  Variable call : Type.                         (* identities of the concurrent calls *)
-  Variable tag_of : call -> N.                  (* the tag the client transport gave each call *)
-  Variable request_of : call -> message.        (* the request message each call sent *)
-  Variable handler : message -> message.        (* Handle: request message -> reply message (for this history) *)
-  Variable delivered : call -> message -> Prop. (* the transport handed this reply message to this call *)
-  Variable client_received : N -> message -> Prop.   (* frames (tag, message) read by the client *)
-  Variable server_sent : N -> message -> Prop.       (* frames written by the server *)
-  Variable server_received : N -> message -> Prop.   (* request frames read by the server *)
+(* Composition with the tag layers over ONE global history of what crosses the
+   wire and what the client transport hands to callers.  Tags are reused over
+   time, so everything is stated by position in the history.  The three
+   hypotheses have the shape of the sibling models' theorems (to be
+   instantiated by the lead from their traces):
+     own_reply  - C05_own_reply: the reply handed to call c is the payload of
+                  the FIRST reply frame carrying c's tag after c's request frame;
+     tag_reuse  - C05_distinct (honest peer): a tag is given to another request
+                  only after a reply with that tag came back;
+     reply_own  - C06: every reply frame the server sends answers the latest
+                  request frame with its tag, once, with the message its own
+                  Handle invocation produced ([answer i] for the request at
+                  position i).
+   Conclusion: the reply a caller obtains is the answer to ITS OWN request,
+   whatever other calls are in flight or reuse its tag later. *)
+Inductive gev :=
+| GReq (c : nat) (t : N) (q : message)     (* the request frame of call c, tag t, crosses the wire *)
+| GRep (t : N) (r : message)                (* a reply frame with tag t crosses the wire *)
+| GDel (c : nat) (r : message).             (* the client transport hands r to call c *)
 
-  Hypothesis C05_own_reply : forall c r, delivered c r -> client_received (tag_of c) r.
-  Hypothesis C05_tags_distinct : forall c c', tag_of c = tag_of c' -> c = c'.
-  Hypothesis wire_replies : forall t r, client_received t r -> server_sent t r.
-  Hypothesis C06_reply_own : forall t r, server_sent t r -> exists q, server_received t q /\ r = handler q.
-  Hypothesis wire_requests : forall t q, server_received t q -> exists c, tag_of c = t /\ q = request_of c.
+Definition no_rep_between (h : list gev) (t : N) (i j : nat) : Prop :=
+  forall k r, (i < k < j)%nat -> nth_error h k <> Some (GRep t r).
+Definition no_req_between (h : list gev) (t : N) (i j : nat) : Prop :=
+  forall k c q, (i < k < j)%nat -> nth_error h k <> Some (GReq c t q).
 
-  Lemma own_result : forall c r, delivered c r -> r = handler (request_of c).
-  Proof.
-    intros c r Hd.
-    apply C05_own_reply in Hd. apply wire_replies in Hd.
-    destruct (C06_reply_own _ _ Hd) as [q [Hq ->]].
-    destruct (wire_requests _ _ Hq) as [c' [Ht ->]].
-    apply C05_tags_distinct in Ht. subst c'. reflexivity.
-  Qed.
-End OwnResult.
+Definition own_reply_hyp (h : list gev) : Prop :=
+  forall k c r, nth_error h k = Some (GDel c r) ->
+    exists i j t q, (i < j < k)%nat /\ nth_error h i = Some (GReq c t q) /\
+                    nth_error h j = Some (GRep t r) /\ no_rep_between h t i j.
+Definition tag_reuse_hyp (h : list gev) : Prop :=
+  forall i i' c c' t q q', (i < i')%nat ->
+    nth_error h i = Some (GReq c t q) -> nth_error h i' = Some (GReq c' t q') ->
+    exists k r, (i < k < i')%nat /\ nth_error h k = Some (GRep t r).
+Definition reply_own_hyp (answer : nat -> message) (h : list gev) : Prop :=
+  forall j t r, nth_error h j = Some (GRep t r) ->
+    exists i c q, (i < j)%nat /\ nth_error h i = Some (GReq c t q) /\ r = answer i /\
+                  no_req_between h t i j /\ no_rep_between h t i j.
+
+Lemma own_result : forall (answer : nat -> message) (h : list gev),
+  own_reply_hyp h -> tag_reuse_hyp h -> reply_own_hyp answer h ->
+  forall k c r, nth_error h k = Some (GDel c r) ->
+    exists i t q, (i < k)%nat /\ nth_error h i = Some (GReq c t q) /\ r = answer i.
+Proof.
+  intros answer h Hown Hreuse Hrep k c r Hk.
+  destruct (Hown k c r Hk) as [i [j [t [q [[Hij Hjk] [Hi [Hj Hnone]]]]]]].
+  destruct (Hrep j t r Hj) as [i' [c' [q' [Hi'j [Hi' [Hr [Hnoreq Hnorep]]]]]]].
+  assert (i' = i) as ->.
+  { destruct (Nat.lt_trichotomy i' i) as [Hlt | [Heq | Hgt]]; [| exact Heq |].
+    - (* the server answered an older request although c's request with the same tag lay in between *)
+      exfalso. apply (Hnoreq i c q); [lia | exact Hi].
+    - (* a younger request got c's tag before any reply with that tag came back *)
+      exfalso. destruct (Hreuse i i' c c' t q q' Hgt Hi Hi') as [k' [r' [Hk' Hk'r]]].
+      apply (Hnone k' r'); [lia | exact Hk'r]. }
+  exists i, t, q. split; [lia |]. split; [exact Hi | exact Hr].
+Qed.
+
+(* --------------------- the connection instantiated with the codec model (C01) *)
+
+(* [transfer] := encode with some tag, decode (Model/Wire.v).  The codec's
+   round-trip theorem (Proofs/WireProofs.v, dec_fcall_enc) turns the "arrives
+   as sent" premises of request_identity / reply_identity into the decidable
+   well-formedness of the frames in question. *)
+From P9 Require Import Model.Wire Proofs.WireProofs.
+
+Definition as_fcall (tag : N) (q : message) : fcall :=
+  {| fc_type := fst q; fc_tag := tag; fc_fields := snd q |}.
+
+Definition wire_transfer (tag : N) (q : message) : res message :=
+  match dec_fcall (enc_fcall (as_fcall tag q)) with
+  | Ok f => Ok (fc_type f, fc_fields f)
+  | Err e => Err e
+  | Panic => Panic
+  | Hang => Hang
+  end.
+
+Lemma wire_transfer_wf : forall tag q, wf_fcall (as_fcall tag q) = true -> wire_transfer tag q = Ok q.
+Proof.
+  intros tag [t vs] H. unfold wire_transfer.
+  rewrite <- (app_nil_r (enc_fcall (as_fcall tag (t, vs)))).
+  rewrite dec_fcall_enc by exact H. reflexivity.
+Qed.
+
+Lemma request_identity_wire : forall tag msize smsize m args,
+  In m gen_client -> wf_args m args -> (24 <= msize < 2 ^ 31)%Z ->
+  first_guard args (cm_guards m) = None ->
+  request_fits msize m args ->
+  (forall q, frame_sent msize m args = Some q -> wf_fcall (as_fcall tag q) = true) ->
+  request_ok (wire_transfer tag) msize smsize m args.
+Proof.
+  intros tag msize smsize m args Hin Hwf Hm Hg Hfit Hq.
+  apply request_identity; try assumption.
+  intros q Hs. apply wire_transfer_wf. apply Hq. exact Hs.
+Qed.
+
+Lemma reply_identity_wire : forall tag msize m c args sargs o,
+  In m gen_client -> find_server (cm_req m) = Some c ->
+  result_wf m args sargs o ->
+  (forall r, server_reply c sargs o = Ok r -> (msg_size r <= msize)%Z /\ wf_fcall (as_fcall tag r) = true) ->
+  reply_path (wire_transfer tag) msize m c args sargs o = Ok (expected m args o).
+Proof.
+  intros tag msize m c args sargs o Hin Hc Hwf Hr.
+  apply reply_identity; try assumption.
+  intros r Hs. destruct (Hr r Hs) as [Hsz Hw]. split; [exact Hsz | apply wire_transfer_wf; exact Hw].
+Qed.
